@@ -230,7 +230,7 @@ typedef struct {
 			 * Valid range 0 ... 506 (39 packets * 13 triplets),
 			 * unused pointers 511 (10.5.1.2), broken -1.
 			 */
-			uint16_t			pointer[4 * 12 * 2];
+			uint16_t			pointer[4 * 12 * 2 + 2];
 
 			/**
 			 * 13 triplets from each of packet 3 ... 25 and
